@@ -1261,6 +1261,10 @@ def c13(scn):
                 continue
             fl = _flooded(z, e, recv)
             if z[i] <= fl:
+                # no receiver ends below the node: the sum over lower receivers is empty and the
+                # equation reads new - old = 0
+                if e[i] != 0.0:
+                    fails.append(("spl_residual", "node %d (n=%r, m=%r, dt=%r): no lower receiver, the equation requires zero change but erosion is %r" % (i, nexp, mexp, dt, e[i])))
                 continue
             zi1 = z[i] - e[i]
             allow = 8 * EPS * (abs(z[i]) + abs(fl) + abs(e[i])) + 8 * DBL_MIN
@@ -1313,3 +1317,98 @@ def spl_cause(scn, fail):
     if clause == "spl_rejects_multi_nonlinear" and "exponent 0." in wit:
         return "exponent_below_one"
     return "other"
+
+
+# ----------------------------------------------------------------------------- C14
+
+def _tridiag_exact(lower, diag, upper, vec):
+    """Gaussian elimination in exact rationals (no pivoting needed: strictly diagonally dominant)"""
+    n = len(vec)
+    c = [Fraction(0)] * n
+    d = [Fraction(0)] * n
+    c[0] = upper[0] / diag[0]
+    d[0] = vec[0] / diag[0]
+    for i in range(1, n):
+        den = diag[i] - lower[i] * c[i - 1]
+        c[i] = upper[i] / den
+        d[i] = (vec[i] - lower[i] * d[i - 1]) / den
+    x = [Fraction(0)] * n
+    x[n - 1] = d[n - 1]
+    for i in range(n - 2, -1, -1):
+        x[i] = d[i] - c[i] * x[i + 1]
+    return x
+
+
+def adi_exact(rows, cols, dy, dx, K, dt, z):
+    """two half steps of the Peaceman-Rachford scheme with face-averaged diffusivity and
+    fixed-value borders, in exact rationals; K, z: row-major lists"""
+    F = Fraction
+    k = lambda r, c: F(K[r * cols + c])
+    u = [[F(z[r * cols + c]) for c in range(cols)] for r in range(rows)]
+    dtq = F(dt)
+    ay = lambda r, c, s: (k(r, c) + k(r + s, c)) / 2 / (2 * F(dy) * F(dy))     # face diffusivity / (2 dy^2)
+    ax = lambda r, c, s: (k(r, c) + k(r, c + s)) / 2 / (2 * F(dx) * F(dx))
+    # half step 1: implicit along columns (x), explicit along rows (y)
+    us = [row[:] for row in u]
+    for r in range(1, rows - 1):
+        lower, diag, upper, vec = [F(0)] * cols, [F(1)] * cols, [F(0)] * cols, [u[r][c] for c in range(cols)]
+        for c in range(1, cols - 1):
+            lower[c] = -ax(r, c, -1) * dtq
+            upper[c] = -ax(r, c, +1) * dtq
+            diag[c] = 1 + (ax(r, c, -1) + ax(r, c, +1)) * dtq
+            vec[c] = (1 - (ay(r, c, -1) + ay(r, c, +1)) * dtq) * u[r][c] + ay(r, c, -1) * dtq * u[r - 1][c] + ay(r, c, +1) * dtq * u[r + 1][c]
+        us[r] = _tridiag_exact(lower, diag, upper, vec)
+    # half step 2: implicit along rows (y), explicit along columns (x)
+    un = [row[:] for row in us]
+    for c in range(1, cols - 1):
+        lower, diag, upper, vec = [F(0)] * rows, [F(1)] * rows, [F(0)] * rows, [us[r][c] for r in range(rows)]
+        for r in range(1, rows - 1):
+            lower[r] = -ay(r, c, -1) * dtq
+            upper[r] = -ay(r, c, +1) * dtq
+            diag[r] = 1 + (ay(r, c, -1) + ay(r, c, +1)) * dtq
+            vec[r] = (1 - (ax(r, c, -1) + ax(r, c, +1)) * dtq) * us[r][c] + ax(r, c, -1) * dtq * us[r][c - 1] + ax(r, c, +1) * dtq * us[r][c + 1]
+        col = _tridiag_exact(lower, diag, upper, vec)
+        for r in range(rows):
+            un[r][c] = col[r]
+    return [F(z[r * cols + c]) - un[r][c] for r in range(rows) for c in range(cols)]
+
+
+def c14(scn):
+    fails = []
+    t = scn.calls[0].toks if scn.calls else []
+    if len(t) < 6 or t[1] != "raster" or scn.calls[0].O.get("grid") != ["ok"]:
+        return fails
+    rows, cols, dy, dx = int(t[2]), int(t[3]), unhx(t[4]), unhx(t[5])
+    n = rows * cols
+    F = Fraction
+    for c in scn.calls:
+        if c.cmd != "adi":
+            continue
+        tk = c.toks
+        kind = tk[1]
+        nk = 1 if kind == "s" else n
+        ks = [unhx(x) for x in tk[2:2 + nk]]
+        K = ks * n if kind == "s" else ks
+        dt = unhx(tk[2 + nk])
+        z = [unhx(x) for x in tk[3 + nk:3 + nk + n]]
+        out = c.O.get("adi")
+        if out is None or out[0] == "err":
+            fails.append(("adi_never_throws", "K>0, dt>=0 but erode gave %s" % out))
+            continue
+        e = [unhx(x) for x in out]
+        if any(math.isnan(x) or math.isinf(x) for x in e):
+            fails.append(("adi_finite", "NaN/inf erosion"))
+            continue
+        for r in range(rows):
+            for cc in range(cols):
+                if (r in (0, rows - 1) or cc in (0, cols - 1)) and e[r * cols + cc] != 0.0:
+                    fails.append(("adi_border_zero", "border node (%d,%d) erosion %r" % (r, cc, e[r * cols + cc])))
+        want = adi_exact(rows, cols, dy, dx, K, dt, z)
+        fdt = max(K) * dt * (1 / (dy * dy) + 1 / (dx * dx))
+        zmax = max(abs(x) for x in z) or 1.0
+        tol = F(64 * EPS) * F(1 + 4 * fdt) * F(zmax) * (rows + cols) + F(1e-300)
+        for i in range(n):
+            if abs(F(e[i]) - want[i]) > tol:
+                fails.append(("adi_is_peaceman_rachford", "node (%d,%d): erosion %r, direct solve of the two half-step systems gives %r (tolerance %r; K dt/d^2 up to %r)" % (i // cols, i % cols, e[i], float(want[i]), float(tol), fdt)))
+                break
+    return fails[:20]
